@@ -118,9 +118,10 @@ def gen(rng, tier):
     style = rng.choices(("plain", "escaped", "synthetic"), weights=[5, 2.5, 2.5])[0]
     nb = rng.choice((0, 0, 1, 2, 3))
     big = tier == "thorough" and rng.random() < 0.25
-    net = G.gen_net(rng, n_inputs=(2, 6) if big else (1, 5), n_gates=(10, 24) if big else (1, 12), types=G.swarm_types(rng),
+    bare = rng.random() < 0.06       # no gate at all: every output is an input, blackbox pins sit directly on inputs
+    net = G.gen_net(rng, n_inputs=(2, 6) if big else (1, 5), n_gates=(0, 0) if bare else ((10, 24) if big else (1, 12)), types=G.swarm_types(rng),
                     max_arity=rng.randint(2, 5), constants=rng.choice((0.0, 0.0, 0.6)), bbs=nb, unconnected_pins=rng.choice((0.0, 0.3)),
-                    input_outputs=rng.choice((0.0, 0.25)), name=rng.choice(("top", "m1", "dut_x", "top$1", "t$")),
+                    input_outputs=0.6 if bare else rng.choice((0.0, 0.25)), name=rng.choice(("top", "m1", "dut_x", "top$1", "t$")),
                     parity_bias=rng.choice((0.0, 0.3)), min_outputs=0 if (nb and rng.random() < 0.15) else 1)
     if nb and rng.random() < 0.1:
         # no primary io at all: constants feeding blackboxes only ('module m ();')
